@@ -62,9 +62,6 @@ m("C07", "process-after-children", "src/process/visitors.rs",
 m("C07", "remove-types-forgets-slot", "src/nodes/statements/local_function.rs",
   "    pub fn clear_types(&mut self) {\n        self.return_type.take();\n        self.variadic_type.take();",
   "    pub fn clear_types(&mut self) {\n        self.return_type.take();", "C07.slots|remove_types|nodes::statements::local_function::FunctionAssignment.variadic_type|cleared")
-m("C07", "wrong-visitor-for-rule", "src/rules/remove_attribute.rs",
-  "            let mut processor = RemoveAttributeProcessor;\n            DefaultVisitor::visit_block(block, &mut processor);",
-  "            let mut processor = RemoveAttributeProcessor;\n            crate::process::DefaultPostVisitor::visit_block(block, &mut processor);", "C07.slots|remove_attribute|")
 # ---- C03 ----------------------------------------------------------------------------------------
 m("C03", "generator-drops-token", "src/generator/token_based.rs",
   "        self.write_token(&tokens.left_parenthese);\n        self.write_expression(parenthese.inner_expression());\n        self.write_token(&tokens.right_parenthese);",
@@ -102,8 +99,6 @@ m("C10", "deps-lost-on-rule-error", "src/frontend/worker.rs",
   "            rule_result?;\n\n            work_item\n                .external_file_dependencies\n                .extend(context.into_dependencies());", "C10.deps|apply_rules|")
 m("C19", "configure-ignores-unknown", "src/rules/remove_assertions.rs",
   "                _ => return Err(RuleConfigurationError::UnexpectedProperty(key)),", "                _ => {}", "C19.strict|RemoveAssertions|rejects-unknown")
-m("C19", "serializer-drops-key", "src/rules/rename_variables/mod.rs",
-  "properties.insert(\"include_functions\".to_owned()", "properties.insert(\"include_function\".to_owned()", "C19.keys|RenameVariables|include_functions")
 m("C19", "skip-filter-guarded-by-apply", "src/rules/mod.rs",
   "            if !metadata.skip_filters.is_empty() {\n                let filters = metadata\n                    .skip_filters",
   "            if !metadata.apply_to_filters.is_empty() {\n                let filters = metadata\n                    .skip_filters", "C19.filters|serialize|")
@@ -123,8 +118,6 @@ m("C05", "pop-after-question-mark", "src/rules/bundle/path_require_mode/mod.rs",
   "C05.stack|inline_require|pop-on-every-exit")
 m("C05", "error-swallowed", "src/rules/bundle/path_require_mode/mod.rs",
   "            Err(err) => {\n                self.errors.push(err.to_string());\n                return None;\n            }", "            Err(_err) => {\n                return None;\n            }", "C05.errors|try_inline_call|err-arm-recorded")
-m("C06", "duplicate-call-index", "src/rules/remove_compound_assign.rs",
-  "                    Expression::Binary(_)\n                    | Expression::Call(_)\n                    | Expression::Field(_)", "                    Expression::Binary(_)\n                    | Expression::Field(_)", None)
 m("C06", "hoist-without-parentheses", "src/rules/remove_types.rs",
   "                    if self.evaluator.can_return_multiple_values(value) {\n                        *expression = value.clone().in_parentheses();\n                    } else {\n                        *expression = value.clone();\n                    }",
   "                    *expression = value.clone();", "C06.hoist|remove_types|")
@@ -162,8 +155,6 @@ m("C02", "right-operand-never-wrapped", "src/generator/readable.rs",
   "        if operator.right_needs_parentheses(right) {\n            self.write_expression_in_parentheses(right);\n        } else {\n            self.write_expression(right);\n        }\n    }\n\n    fn write_unary_expression",
   "        self.write_expression(right);\n    }\n\n    fn write_unary_expression", "C02.parens|readable|write_binary_expression|")
 m("C02", "minus-minus-fuses", "src/generator/utils.rs", "        '-' => next_character == '-',\n", "", "C02.fuse|pair-class|-|-")
-m("C02", "field-ends-without-prefix", "src/generator/utils.rs",
-  "        Expression::Call(_)", "        Expression::Nil(_)", None)
 m("C08", "identifier-evaluates-to-nil", "src/process/evaluator/mod.rs",
   "            Expression::Call(_)\n            | Expression::Field(_)\n            | Expression::Identifier(_)\n            | Expression::Index(_)\n            | Expression::VariableArguments(_) => LuaValue::Unknown,",
   "            Expression::Identifier(_) => LuaValue::Nil,\n            Expression::Call(_)\n            | Expression::Field(_)\n            | Expression::Index(_)\n            | Expression::VariableArguments(_) => LuaValue::Unknown,", "C08.opaque|evaluate|Identifier")
@@ -181,3 +172,23 @@ m("C14", "bare-key-without-check", "src/process/expression_serializer.rs",
   "                        if let Some(value) = string\n                            .get_string_value()\n                            .filter(|value| is_valid_identifier(value))\n                        {",
   "                        if let Some(value) = string.get_string_value() {", "C14.ident|Serializer::complete_table_entry|")
 m("C14", "keywords-accepted", "src/process/utils/mod.rs", "        && !matches!(identifier, matches_any_keyword!())", "", "C14.keyword|")
+
+m("C06", "duplicate-unary-index", "src/rules/remove_compound_assign.rs",
+  "                    | Expression::VariableArguments(_) => None,\n                    Expression::Parenthese(parenthese)\n                        if matches!(\n                            parenthese.inner_expression(),\n                            Expression::False(_)\n                                | Expression::Identifier(_)",
+  "                    | Expression::VariableArguments(_) => None,\n                    Expression::Parenthese(parenthese)\n                        if matches!(\n                            parenthese.inner_expression(),\n                            Expression::False(_)\n                                | Expression::Call(_)\n                                | Expression::Identifier(_)",
+  "C06.dup|replace_with|")
+m("C19", "serializer-drops-key", "src/rules/rename_variables/mod.rs",
+  "                \"include_functions\".to_owned(),\n                RulePropertyValue::Boolean(self.include_functions),", "                \"include_function\".to_owned(),\n                RulePropertyValue::Boolean(self.include_functions),", "C19.keys|RenameVariables|include_functions")
+m("C07", "rule-returns-before-walking", "src/rules/remove_if_expression.rs",
+  "        let mut processor = Processor::default();\n        DefaultVisitor::visit_block(block, &mut processor);", "        if block.is_empty() || block.statements_len() > 100000 {\n            return;\n        }\n        let mut processor = Processor::default();\n        DefaultVisitor::visit_block(block, &mut processor);", "C07.always|RemoveIfExpression")
+m("C14", "wrapping-cast", "src/process/expression_serializer.rs",
+  "        self.process(DecimalNumber::new(v as f64).into())\n    }\n\n    fn serialize_u8", "        self.process(DecimalNumber::new((v as i32) as f64).into())\n    }\n\n    fn serialize_u8", "C14.cast|")
+m("C11", "output-used-as-file-without-dir-test", "src/frontend/worker_tree.rs",
+  "                if resources.is_directory(&output)? {\n                    let file_name = options.input().file_name().ok_or_else(|| {\n                        DarkluaError::custom(format!(\n                            \"unable to extract file name from `{}`\",\n                            options.input().display()\n                        ))\n                    })?;\n\n                    self.add_source_if_missing(options.input(), Some(output.join(file_name)));\n                } else if resources.is_file(&output)? || output.extension().is_some() {",
+  "                if resources.is_file(&output)? || output.extension().is_some() {", "C11.outdir|")
+m("C19", "skip-true-default", "src/rules/require/luau_require_mode.rs",
+  "    #[serde(default = \"default_use_luau_configuration\")]", "    #[serde(default = \"default_use_luau_configuration\", skip_serializing_if = \"std::ops::Not::not\")]", "C19.skipdefault|LuauRequireMode.use_luau_configuration")
+m("C05", "ascending-index-removal", "src/rules/remove_nil_declarations.rs",
+  "            for index in pop_extra_value_at.into_iter().rev() {", "            for index in pop_extra_value_at.into_iter() {", "C05.index|")
+m("C01", "ascending-index-removal", "src/rules/remove_nil_declarations.rs",
+  "            for index in pop_extra_value_at.into_iter().rev() {", "            for index in pop_extra_value_at.into_iter() {", "C01.index|")
